@@ -12,6 +12,27 @@ TRUST = ("Trusted: govc itself (go/ssa semantics, memory model, contract parser)
          "slice/string/map lengths < 2^48, sequential semantics. Integers are mathematical with Go wrap-around written out.")
 
 CLAIMED = {
+ "C06": dict(
+   text=("Deductive proof of the copying machinery every uses goes through, on the real functions: Entry.dup returns a copy in which the node and everything "
+         "below it is fresh, points back to its copy-parent, keeps names, kinds and scalar attributes, has its own list attributes and its own rpc "
+         "input/output, and writes nothing that existed; Entry.merge files a fresh copy of each child under the user, re-parents it, stamps what the "
+         "caller passes, never overwrites, reports a collision, and writes neither the source tree nor any slice backing array shared with it (the "
+         "aliasing defects found here were of exactly that kind). The scope rule of FindGrouping (reflection) and the uses arm of ToEntry are outside the "
+         "subset. Bounded (labelled): random schemas with groupings at module, submodule, container and nested-grouping scope (shadowing names), used "
+         "across modules under arbitrary prefixes, against an independent expander: every use a faithful copy (names, kinds, types resolved where the "
+         "grouping is defined, defaults, config, list bounds), in the namespace of the using module, no node / list-attribute / rpc object shared; one "
+         "instance changed by an augment leaves the others as they were; two load orders."),
+   ref="8 (C06)"),
+ "C07": dict(
+   text=("Deductive proof on Entry.Augment (partial contract, call-site assertions): every augment of a pass is either counted as processed or kept and "
+         "counted as skipped; merge is called only with a target that was found and can have children, with the augment entry itself as source, without "
+         "prefix, and with the namespace of the augment entry (the augmenting module) as stamp; 'not found' is reported only in the final pass; a target "
+         "that cannot have children is an error; merge's own contract (fresh re-parented copies, collisions reported, stamping) and Find's (C17) carry the "
+         "rest. Process's retry loop is not under contract. Bounded (labelled): random module sets with 2-7 augments chained across modules and "
+         "submodules into containers, lists, choices, cases, rpc input/output, notifications and nodes created by other augments or uses, statements "
+         "shuffled, three load orders, against an independent expander (tree and namespaces); sets with a missing target, a leaf target or a taken name "
+         "must be errors. Assumed: preconditions of Find and Namespace inside Augment."),
+   ref="8 (C07)"),
  "C09": dict(
    text=("Deductive proof on the real functions: the typedef dictionary (find reads exactly the entry of (node, name); add files one entry and changes no "
          "other, every node keeps its own table); findExternal returns a top-level typedef of exactly the module that the referencing module imports under "
@@ -143,8 +164,6 @@ CLAIMED = {
 NOT_REACHED = {
  "C02": "not applicable with the contracts within reach: the property is about string content (which bytes end up in a token, RFC 7950 indentation stripping) inside the lexer state functions, which communicate through a channel and function values and range over strings -- outside the go/ssa subset govc translates, and content equalities need a sequence theory the installed solvers do not decide reliably. The cursor functions the lexer is built on are proved under C16. DESIGN.md section 13.",
  "C03": "not applicable with the contracts within reach: the statement-to-node mirroring is implemented by closures over reflect generated at init; reflection results are opaque to the memory model, so no contract can express that each substatement lands in its field. Only Modules.add's 'modules and submodules only' clause is proved (counted under C13). DESIGN.md section 13.",
- "C06": "not reached: dup/merge freshness, re-parenting and no-aliasing frames are proved (counted under C04), but the uses arm of ToEntry (reflection loop) that carries the property has no discharged contract. DESIGN.md section 13.",
- "C07": "not reached: merge's collision and stamping clauses are proved (C04/C12); Entry.Augment and the retry loop of Process have no discharged contract on the current tree. DESIGN.md section 13.",
  "C08": "not reached: ApplyDeviate (215 implicit checks, many unknown calls) has no discharged contract; a known defect (deviate kinds kept in a map, written order lost) is described in DESIGN.md section 5. DESIGN.md section 13.",
  "C18": "not reached: the single-call 'failure leaves no trace' frames live on Type.resolve and Modules.Parse, which have no discharged contract; batch-vs-incremental equality is relational and outside this family. A known defect (YangType stored before a failing restriction is reported) is described in DESIGN.md section 5.",
 }
